@@ -158,11 +158,17 @@ class World:
                 z = zombies.get(top["rec"]["parent"]) if top else None
         return out
 
+    def gc_events(self) -> int:
+        return sum(v for k, v in self.sim.faults.items() if k.startswith("gc:"))
+
     def after_gc(self):
         held = self.held_groups()
+        now = self.gc_events()
         for hname, handle in self.h.items():
             for u, z in handle.model.zombies.items():
-                if (hname, z.get("group")) not in held:
+                # only a collection that ran AFTER the removal was complete can have freed the entity: collections scheduled
+                # inside the removing call itself (io / line granularity) ran while the call's frames still held it
+                if (hname, z.get("group")) not in held and now > z.get("gc_at_removal", -1):
                     z["collected"] = True
 
     def check_gc(self):
@@ -925,6 +931,7 @@ class World:
         for g in gone:
             model.zombies[g]["group"] = uid
             model.zombies[g]["entry"] = entry
+            model.zombies[g]["gc_at_removal"] = self.gc_events()
             # (kept after the identifier is re-used: a removal through the parent leaves the node in the file -- known finding)
             model.__dict__.setdefault("removed_entry", {})[g] = entry
         self.sim.probe("rm_" + entry)
@@ -953,6 +960,7 @@ class World:
                 for g in gone:
                     model.zombies[g]["group"] = u
                     model.zombies[g]["entry"] = "ws"
+                    model.zombies[g]["gc_at_removal"] = self.gc_events()
                     model.__dict__.setdefault("removed_entry", {})[g] = "ws"
         return "partial:" + outcome.split(":")[0]
 
